@@ -5,7 +5,9 @@
 package c10
 
 import (
+	"context"
 	"fmt"
+	"os"
 	"math/rand/v2"
 	"runtime"
 	"strings"
@@ -16,6 +18,9 @@ import (
 	"time"
 
 	"github.com/platinummonkey/go-concurrency-limits/core"
+	"github.com/platinummonkey/go-concurrency-limits/limit"
+	"github.com/platinummonkey/go-concurrency-limits/limiter"
+	"github.com/platinummonkey/go-concurrency-limits/strategy"
 
 	"verifharness/internal/blk"
 	"verifharness/internal/inject"
@@ -288,11 +293,113 @@ func judge(idx int64, sc scenario, o outcomeT) {
 	}
 }
 
+// stress: real time, zero hold time, no bound that could paper over a lost wake-up (timeout 0 / 1h).  A run that stops
+// making progress for two consecutive watchdog periods with every worker inside Acquire and capacity free is a stable
+// stuck state (violation); any other overrun is inconclusive.
+func stress(idx int64, r *rand.Rand) {
+	capacity := 1 + r.IntN(2)
+	ks := kinds()
+	k := ks[r.IntN(len(ks))]
+	nG := 4 + r.IntN(13)
+	if k.Family == "queue" {
+		k.Backlog = nG + 2
+	}
+	var st interface {
+		core.Strategy
+		GetBusyCount() int
+	}
+	if r.IntN(2) == 0 {
+		st = strategy.NewSimpleStrategy(capacity)
+	} else {
+		st = strategy.NewPreciseStrategy(capacity)
+	}
+	dl, err := limiter.NewDefaultLimiter(limit.NewFixedLimit("c10", capacity, nil), 1e9, 1e9, 1e5, 100, st, limit.NoopLimitLogger{}, core.EmptyMetricRegistryInstance)
+	if err != nil {
+		panic(err)
+	}
+	var lim core.Limiter
+	switch k.Family {
+	case "blocking":
+		lim = limiter.NewBlockingLimiter(dl, k.Timeout, nil)
+	case "deadline":
+		lim = limiter.NewDeadlineLimiter(dl, time.Now().Add(k.Timeout), nil)
+	default:
+		lim = limiter.NewQueueBlockingLimiterFromConfig(dl, limiter.QueueLimiterConfig{Ordering: limiter.QueueOrdering(k.Ordering), MaxBacklogSize: k.Backlog,
+			MaxBacklogTimeout: k.Timeout, BacklogEvictDoneCtx: k.Evict})
+	}
+	iters := 200
+	var progress, refused atomic.Int64
+	var wg sync.WaitGroup
+	for g := 0; g < nG; g++ {
+		wg.Add(1)
+		go func(g int) {
+			defer wg.Done()
+			for i := 0; i < iters; i++ {
+				l, ok := lim.Acquire(context.Background())
+				if !ok || l == nil {
+					refused.Add(1)
+					continue
+				}
+				if (g+i)%4 == 0 {
+					runtime.Gosched()
+				}
+				switch (g + i) % 3 {
+				case 0:
+					l.OnSuccess()
+				case 1:
+					l.OnIgnore()
+				default:
+					l.OnDropped()
+				}
+				progress.Add(1)
+			}
+		}(g)
+	}
+	done := make(chan struct{})
+	go func() { wg.Wait(); close(done) }()
+	last, stable := int64(-1), 0
+	for {
+		select {
+		case <-done:
+			rt.Count("stress_runs", 1)
+			rt.Count("stress_grants", progress.Load())
+			if refused.Load() > 0 {
+				rt.Violation(fmt.Sprintf("C10/%s/stress/caller-refused-although-nothing-bounds-the-wait", k), idx, rt.J{"kind": k, "capacity": capacity, "goroutines": nG, "refused": refused.Load()})
+			}
+			return
+		case <-time.After(3 * time.Second):
+			cur := progress.Load()
+			if cur == last {
+				stable++
+			} else {
+				stable, last = 0, cur
+			}
+			if stable >= 2 {
+				buf := make([]byte, 1<<20)
+				dump := string(buf[:runtime.Stack(buf, true)])
+				if st.GetBusyCount() < capacity && strings.Contains(dump, "c10.stress.func1") {
+					rt.Violation(fmt.Sprintf("C10/%s/stress/callers-stuck-with-capacity-free", k), idx, rt.J{"kind": k, "capacity": capacity, "goroutines": nG,
+						"busy": st.GetBusyCount(), "grants_so_far": cur, "stacks": dump[:min(len(dump), 6000)]})
+					rt.Flush()
+					os.Exit(0)
+				}
+				rt.Inconclusive("C10 stress run stopped progressing without a recognisable stuck state")
+				return
+			}
+		}
+	}
+}
+
 func TestCheck(t *testing.T) {
 	g := grid()
 	rt.Cases(len(g)*3, len(g)*1500, func(idx int64) {
 		r := rt.CaseRand(10, idx)
 		rt.Case()
+		if idx%50 == 49 {
+			stress(idx, r)
+			rt.Distinct(fmt.Sprintf("stress|%d", idx))
+			return
+		}
 		sc := g[int(idx)%len(g)]
 		sc.Yields = []int{2000, 20000, 200}[r.IntN(3)]
 		judge(idx, sc, run(t, sc, r))
